@@ -1871,11 +1871,20 @@ where
         }
     }
 
+    /// A MathML `annotation-xml` element whose `encoding` makes it an HTML integration point.
+    fn current_node_is_annotation_xml_integration_point(&self) -> bool {
+        self.current_node_in(|n| n == expanded_name!(mathml "annotation-xml"))
+            && self
+                .sink
+                .is_mathml_annotation_xml_integration_point(&self.current_node())
+    }
+
     fn unexpected_start_tag_in_foreign_content(&self, tag: Tag) -> ProcessResult<Handle> {
         self.unexpected(&tag);
         while !self.current_node_in(|n| {
             *n.ns == ns!(html) || mathml_text_integration_point(n) || svg_html_integration_point(n)
-        }) {
+        }) && !self.current_node_is_annotation_xml_integration_point()
+        {
             self.pop();
         }
         self.step(self.mode.get(), Token::Tag(tag))
